@@ -53,6 +53,13 @@ HAND += [
     H("c04_decode_length_rule", "c04", "C04", unwind=3, cost=10,
       bounds="first byte any, buffer length 0..=1100, both modes",
       functions=["insim::net::Mode::decode_length"]),
+    H("c04_decode_unknown_type", "c04", "C04", unwind=10, cost=520, timeout=1800, timeout_thorough=3600,
+      bounds="compressed frame [1, 200, any, any] + 4 symbolic tail bytes in a BytesMut",
+      functions=["insim::net::Codec::decode", "insim::net::Mode::decode_length", "<insim::Packet as BinRead>::read_options (all 73 variant attempts)",
+                 "bytes::BytesMut::split_to", "bytes::Buf::advance"]),
+    H("c04_decode_unknown_type_uncompressed", "c04", "C04", tier="thorough", unwind=10, cost=520, timeout=1800, timeout_thorough=3600,
+      bounds="uncompressed frame [4, 200, any, any] + 4 symbolic tail bytes in a BytesMut",
+      functions=["insim::net::Codec::decode", "insim::net::Mode::decode_length", "<insim::Packet as BinRead>::read_options"]),
 ]
 
 HAND += [
@@ -89,7 +96,7 @@ HAND += [
     H("c15_racelaps_hours_encode", "c15", "C15", unwind=3, cost=5, bounds="Hours(h), h: usize = any()",
       functions=["<u8 as From<RaceLaps>>::from", "<RaceLaps as From<u8>>::from"]),
 ] + [
-    H("c15_duration_%s_s%d_%s" % (t, s, k), "c15", "C15", unwind=10, cost=30,
+    H("c15_duration_%s_s%d_%s" % (t, s, k), "c15", "C15", tier="thorough" if (t, s, k) == ("u32", 10, "wire") else "quick", unwind=10, cost=30,
       bounds=("every %s wire value" % t) if k == "wire" else "Duration::new(secs <= 2^34, any nanos)",
       functions=["insim_core::duration::binrw_parse_duration::<%s, %d>" % (t, s), "insim_core::duration::binrw_write_duration::<%s, %d>" % (t, s)])
     for t in ("u16", "u32") for s in (1, 10) for k in ("wire", "encode")
@@ -100,14 +107,17 @@ HAND += [
     for t in ("u16", "u32") for s in (1, 10)
 ] + [
 ] + [
-    H("c15_small_%s_wire" % k, "c15", "C15", tier="quick" if k in ("ssp", "nli") else "thorough", unwind=8, cost=300, timeout=900,
+    H("c15_small_%s_wire" % k, "c15", "C15", tier="quick" if k == "nli" else "thorough", unwind=8, cost=300, timeout=900, timeout_thorough=2400,
       bounds="SMALL sub-type %s x every u32 value" % k.upper(),
       functions=["<insim::insim::SmallType as BinRead>::read_options", "<SmallType as BinWrite>::write_options"])
     for k in ("ssp", "ssg", "stp", "rtp", "nli")
 ] + [
-    H("c15_small_time_encode", "c15", "C15", unwind=8, cost=30,
-      bounds="the five timed sub-types x Duration::new(secs <= 2^34, any nanos)",
-      functions=["<SmallType as BinWrite>::write_options"]),
+] + [
+    H("c15_small_%s_encode" % k, "c15", "C15", tier="quick" if k in ("ssp", "nli") else "thorough", unwind=8, cost=60, timeout=900,
+      bounds="SMALL sub-type %s x any Duration (secs any u64, any nanos)" % k.upper(),
+      functions=["<insim::insim::SmallType as BinWrite>::write_options"])
+    for k in ("ssp", "ssg", "stp", "rtp", "nli")
+] + [
     # ---- C16 ------------------------------------------------------------------------------------
     H("c16_order_axioms", "c16", "C16", cost=10,
       bounds="three symbolic GameVersions: major any f32 except NaN and -0.0, minor any char, patch any Option<usize>",
@@ -129,9 +139,11 @@ HAND += [
     for m in ("compressed", "uncompressed")
 ] + [
     # ---- C06 ------------------------------------------------------------------------------------
-    H("c06_blocking_short_writes", "c06", "C06", unwind=14, cost=120, timeout=900,
-      bounds="2 packets (TINY any reqi, SMALL/TMS any reqi+bool), both modes, transport accepts any k in 1..=len per call (<= 12 calls)",
-      functions=["insim::net::blocking_impl::Framed::write", "insim::net::Codec::encode"]),
+    H("c06_blocking_short_writes", "c06", "C06", unwind=10, cost=120, timeout=900,
+      bounds="2 packets whose frames are 4 and 8 symbolic bytes (Codec::encode replaced by a frame model), transport accepts any k in 1..=len per call (<= 12 calls)",
+      functions=["insim::net::blocking_impl::Framed::write", "std::io::Write::write_all (default method, via Box<dyn ReadWrite>)"]),
+    H("c06_twin_must_fail", "c06", "C06", tier="thorough", expect="fail", unwind=10, cost=60,
+      bounds="vacuity twin: claims one transport call per packet; must be refuted"),
     # ---- C17 ------------------------------------------------------------------------------------
     H("c17_pth_image_0", "c17", "C17", unwind=8, cost=30, bounds="PTH image, node count 0, all other bytes symbolic (16 bytes)",
       functions=["insim_pth::Pth::read", "insim_pth::Pth::write"]),
@@ -146,6 +158,12 @@ HAND += [
       bounds="one-node PTH image (count field 1, rest symbolic) truncated to %d of 56 bytes" % c,
       functions=["insim_pth::Pth::read"]) for c in (55, 36, 16)
 ] + [
+] + [
+    H("c17_pth_count_%s" % k, "c17", "C17", tier="quick" if k in ("neg1", "max") else "thorough", unwind=8, cost=60,
+      bounds="header-only PTH image with node count field = %s (concrete), other bytes symbolic" % v,
+      functions=["insim_pth::Pth::read", "binrw::helpers::count_with (profile: generic path)"])
+    for k, v in (("neg1", "-1"), ("min", "i32::MIN"), ("max", "i32::MAX"), ("million", "1000000"))
+] + [
     H("c17_smx_image_0_0", "c17", "C17", unwind=34, cost=120, bounds="SMX image: 0 objects, 0 checkpoints, ASCII track name, other bytes symbolic (68 bytes)",
       functions=["insim_smx::Smx::read", "insim_smx::Smx::write"]),
     H("c17_smx_image_0_1", "c17", "C17", tier="thorough", unwind=34, cost=150, bounds="SMX image: 0 objects, 1 checkpoint (72 bytes)",
@@ -154,6 +172,33 @@ HAND += [
       bounds="SMX image: 1 object with 1 point and 1 triangle, 1 checkpoint (120 bytes)",
       functions=["insim_smx::Smx::read", "insim_smx::Smx::write"]),
 ]
+
+def _c11():
+    import re
+    src = open(os.path.join(os.path.dirname(HERE), "kani", "src", "c11.rs")).read()
+    quick = {"c11_fixed8_len0", "c11_fixed8_len7", "c11_fixed8_len8", "c11_fixed8_len9", "c11_fixed8_len16", "c11_fixed24_len24",
+             "c11_fixed24_len25", "c11_var64_len3", "c11_var64_len4", "c11_var64_len5", "c11_mst_len63", "c11_mst_len64",
+             "c11_mtc_len3", "c11_mtc_len4", "c11_read8", "c11_read24"}
+    out = []
+    for kind, name, args in re.findall(r"^(fixed_write|var_write|terminated|fixed_read)!\((c11_\w+),([^)]*)\);", src, re.M):
+        a = [x.strip() for x in args.split(",")]
+        if kind == "fixed_write":
+            b = "fixed-width writer N=%s, text length %s (concrete), content symbolic ASCII" % (a[0], a[1])
+            f = ["insim_core::string::binrw_write_codepage_string::<%s>" % a[0]]
+        elif kind == "var_write":
+            b = "variable-width writer MAX=%s align 4, text length %s (concrete), content symbolic ASCII" % (a[0], a[1])
+            f = ["insim_core::string::binrw_write_codepage_string::<%s> (align_to = 4)" % a[0]]
+        elif kind == "terminated":
+            b = "%s with %s of length %s (concrete), content symbolic ASCII: last byte NUL" % (a[0], a[1], a[2])
+            f = ["<%s as BinWrite>::write_options" % a[0], "insim_core::string::binrw_write_codepage_string"]
+        else:
+            b = "fixed-width reader N=%s over every [u8; N] image (ASCII model of the conversion)" % a[0]
+            f = ["insim_core::string::binrw_parse_codepage_string::<%s>" % a[0], "insim_core::string::strip_trailing_nul"]
+        out.append(H(name, "c11", "C11", tier="quick" if name in quick else "thorough", unwind=260, cost=60, timeout=600, bounds=b, functions=f))
+    return out
+
+
+HAND += _c11()
 
 PROPERTY_NOTES = {
     "C13": {
@@ -164,16 +209,42 @@ PROPERTY_NOTES = {
 }
 
 
-def _generated():
+CLOSING_SET = os.path.join(os.path.dirname(HERE), "closing_set.json")
+QUICK_MAX_S, THOROUGH_MAX_S = 240, 900
+
+
+def _generated(include_unclosed=False):
+    """Per-kind harnesses from gen_packets. Only harnesses that were measured to close on the unchanged tree
+    (closing_set.json, written by tools/sweep.py) are registered: one that needs more than the caps is not a
+    check, and is listed in DESIGN.md as attempted/outside. Tier by measured cost."""
     try:
         import gen_packets
     except ImportError:
         return []
-    return gen_packets.harness_index(H)
+    hs = gen_packets.harness_index(H)
+    if include_unclosed or not os.path.exists(CLOSING_SET):
+        return hs
+    import json
+    cs = json.load(open(CLOSING_SET))
+    out = []
+    for h in hs:
+        rec = cs.get(h.name)
+        if not rec or rec["status"] == "inconclusive" or rec.get("cbmc_s") is None:
+            continue
+        t = rec["cbmc_s"]
+        if t > THOROUGH_MAX_S:
+            continue
+        if h.tier == "quick" and t > QUICK_MAX_S:
+            h.tier = "thorough"
+        h.cost = t
+        h.timeout = max(600, int(t * 4))
+        h.timeout_thorough = max(1200, int(t * 5))
+        out.append(h)
+    return out
 
 
-def all_harnesses():
-    return HAND + _generated()
+def all_harnesses(include_unclosed=False):
+    return HAND + _generated(include_unclosed)
 
 
 def harnesses_for(prop, tier):
